@@ -71,6 +71,10 @@ PROPS["C01"] = dict(
             dict(pkg="./index", entry="VerifC01", bounds="ops=4,cfg=2,maxlevel=0", reach=["searched"]),
             dict(pkg="./index", entry="VerifC01", bounds="ops=4,cfg=1,maxlevel=0,save=1,meta=1", reach=["searched"]),
             dict(pkg="./index", entry="VerifC01", bounds="ops=5,cfg=0,maxlevel=1,fresh=1,phase=1", reach=["searched"]),
+            # the dataset-level clause (search on a whole dataset): the coordinator over real partitions on two nodes, and over
+            # failing nodes - a dataset that holds items never answers with an empty list and a success status
+            dict(pkg="./storage", entry="VerifC09Cluster", bounds="maxp=2,items=1,maxk=2", reach=["searched", "end"]),
+            dict(pkg="./storage", entry="VerifC09", bounds="maxp=2,items=1,maxk=1", reach=["searched", "end"]),
         ],
         "thorough": [
             dict(pkg="./index", entry="VerifC01", bounds="ops=5,cfg=%d,maxlevel=1" % c, reach=["searched"]) for c in (0, 1, 2, 3, 5)
@@ -94,6 +98,8 @@ PROPS["C02"] = dict(
             dict(pkg="./storage", entry="VerifC02", bounds="ops=2,kinds=6,ids=2,metashapes=3,maxlevel=0,cfg=1", reach=["end"]),
             # metadata the snapshot format cannot represent: refused, nothing changed (also on the remove+insert update path)
             dict(pkg="./storage", entry="VerifC02", bounds="ops=2,kinds=6,ids=2,metashapes=2,longmeta=1,maxlevel=0,cfg=1", reach=["end"], must_assert=["unrepresentable-metadata-refused"]),
+            # the entry-count limit (65535) on the merged metadata of an update: two maps of 40000 keys each
+            dict(pkg="./storage", entry="VerifC02BigMeta", bounds="keys=40000", unwind=90000, workers=2, reach=["bigmeta-end"], must_assert=["unrepresentable-metadata-refused"]),
         ],
         "thorough": [
             dict(pkg="./storage", entry="VerifC02", bounds="ops=4,kinds=3,ids=2,metashapes=3,maxlevel=1,cfg=0", reach=["end"]),
@@ -119,6 +125,8 @@ PROPS["C08"] = dict(
             dict(pkg="./index", entry="VerifC08", bounds="ops=2,reader=2,header=1,target=1,metashapes=3", reach=["loaded", "end"]),
             dict(pkg="./index", entry="VerifC08", bounds="ops=5,cfg=0,maxlevel=0,metashapes=1,header=0,target=0,reader=0", reach=["loaded", "end"]),
             dict(pkg="./index", entry="VerifC08Len", bounds="", unwind=70000, reach=["len-end", "insert-refused"]),
+            # the limits count bytes: keys/values of two-byte characters around 255 / 65535 bytes
+            dict(pkg="./index", entry="VerifC08Len", bounds="wide=1,klo=10,khi=10,vlo=10,vhi=10", unwind=70000, reach=["len-end", "insert-refused"]),
         ],
         "thorough": [
             dict(pkg="./index", entry="VerifC08", bounds="ops=4,reader=0,metashapes=2,cfg=1", reach=["loaded", "end"]),
@@ -200,6 +208,8 @@ PROPS["C09"] = dict(
             dict(pkg="./storage", entry="VerifC09", bounds="minp=3,maxp=3,nodes=3,spread=1,items=2,mink=2,maxk=2,failmodes=1,race=1", reach=["searched", "end"]),
             dict(pkg="./storage", entry="VerifC09Cluster", bounds="maxp=2,items=1,maxk=2,race=1", reach=["searched", "end"]),
             dict(pkg="./storage", entry="VerifC09Cluster", bounds="maxp=1,items=2,maxk=3,race=1", reach=["searched", "end"]),
+            # 17 and 33 partitions on one node (per-node chunking, caps): concrete distinct scores, one schedule
+            dict(pkg="./storage", entry="VerifC09Many", bounds="", unwind=200, reach=["many-end"]),
         ],
         "thorough": [
             dict(pkg="./storage", entry="VerifC09", bounds="maxp=2,preempt=1,race=1", reach=["searched", "end"]),
@@ -222,7 +232,9 @@ PROPS["C17"] = dict(
     explanation="real Dataset.SizeInfo with its lookup goroutines, closer and collector; local partitions hold real indexes, remote ones are harness pb.DataManagerClient implementations answering by the partition id in the request",
     runs={
         "quick": [dict(pkg="./storage", entry="VerifC17", bounds="maxp=3,placements=4,gone=0,race=1", reach=["sized", "end"]),
-                  dict(pkg="./storage", entry="VerifC17", bounds="maxp=2,placements=4,gone=1,race=1", reach=["sized", "end"])],
+                  dict(pkg="./storage", entry="VerifC17", bounds="maxp=2,placements=4,gone=1,race=1", reach=["sized", "end"]),
+                  # failing lookups that return gRPC status errors (Canceled, Unavailable, DeadlineExceeded) instead of a plain error
+                  dict(pkg="./storage", entry="VerifC17", bounds="maxp=2,placements=4,gone=0,failkinds=4,race=1", reach=["sized", "end"])],
         "thorough": [dict(pkg="./storage", entry="VerifC17", bounds="maxp=3,placements=4,preempt=2,gone=0,race=1", reach=["sized", "end"]),
                      dict(pkg="./storage", entry="VerifC17", bounds="maxp=3,placements=4,preempt=1,gone=1,race=1", reach=["sized", "end"])],
     },
@@ -243,6 +255,8 @@ PROPS["C11"] = dict(
             dict(pkg="./storage", entry="VerifC11Remote", bounds="race=1", reach=["remote-end"]),
             dict(pkg="./storage", entry="VerifC11Batch", bounds="preempt=1,race=1", reach=["batch-end"]),
             dict(pkg="./storage", entry="VerifC11TwoNodes", bounds="preempt=1,race=1", reach=["two-nodes-returned"]),
+            # the caller's deadline may expire at any scheduling point while its entry is being applied (racy timers)
+            dict(pkg="./storage", entry="VerifC11Timeout", bounds="preempt=2,race=1", unwind=200, reach=["timeout-end"]),
         ],
         "thorough": [
             dict(pkg="./storage", entry="VerifC11Local", bounds="maxcallers=2,preempt=2,race=1", reach=["callers-returned", "end2"]),
